@@ -14,6 +14,7 @@ import numpy
 from mpv import arr, models, syntax
 from mpv.props import c15
 
+ANCHORS = ['mpilot/utils.py:convert_eems2_commands', 'mpilot/parser/parser.py:Parser.p_eems2_command', 'mpilot/program.py:Program.from_source']   # repository functions the workload must enter (reported as anchors_reached / anchors_missed)
 LEVEL = "exploration"
 RULE = ("exhaustive: 25 EEMS 2.0 names x {with, without NewFieldName} x {with, without OutFileName} x {bare, 'Result =' form}; random: "
         "EEMS models of 2-12 commands written in 2.0 syntax (any graph shape, optionally mixed with MPilot-style commands) in all "
